@@ -34,6 +34,18 @@ def run(env):
             sk = r.randrange(1, q_)
             rows = [[str(pow(int(c[1]), s_, P_)) for c in cs] for s_ in (sk, sk + 1, 7)]
             add(ctx, "joint_dec_many", [rows, cs], "joint_dec_many")
+    # vectors whose items encode to DIFFERENT byte lengths (0, 1, 255, 256, 2^32, q-1 ...), short item first and long item first:
+    # a parallel writer must not assume a fixed width
+    for ctx in ("B:%d" % P62, "M:%d" % P62, "B:2039"):
+        P_, q_, g_ = pq(ctx)
+        mixed_x = [0, 1, 255, 256, 65535, 65536, 2 ** 32 % q_, (2 ** 56) % q_, q_ - 1, q_ - 2, 7, 0, q_ // 2]
+        for order in (mixed_x, list(reversed(mixed_x)), sorted(mixed_x), [q_ - 1] + [0] * 40 + [q_ - 1], [0] * 40 + [q_ - 1] * 3):
+            add(ctx, "ser_vec_x", [[str(x) for x in order]], "ser-mixed-width")
+            add(ctx, "ser_vec_p", [[str(x % max(2, q_ - 1)) for x in order]], "ser-mixed-width")
+        mixed_e = [1, g_, pow(g_, 2, P_), pow(g_, q_ - 1, P_)] + [rnd_member(r, ctx) for _ in range(6)] + [1, 1]
+        for order in (mixed_e, list(reversed(mixed_e)), sorted(mixed_e)):
+            add(ctx, "ser_vec_e", [[str(x) for x in order]], "ser-mixed-width")
+            add(ctx, "ser_vec_c", [[[str(x), str(order[(i * 3 + 1) % len(order)])] for i, x in enumerate(order)]], "ser-mixed-width")
     # large inputs (sizes at which a parallel build would plausibly switch to chunked / tree evaluation): megabyte
     # labels, thousands of items; compared between the builds and thread counts only (cheap on the implementation)
     bctx = "B:%d" % P62; P_, q_, g_ = pq(bctx)
